@@ -6,6 +6,7 @@ Mathlib's `CommRing` / `Field`; specifications are `evalPoly` (Σ cᵢ xⁱ) and
 import FAVerif.Models.Poly
 import Mathlib.Algebra.Polynomial.Derivative
 import Mathlib.Algebra.Polynomial.Taylor
+import Mathlib.Algebra.Polynomial.FieldDivision
 import Mathlib.Tactic.Ring
 import Mathlib.Tactic.Linarith
 
@@ -940,5 +941,359 @@ theorem toPoly_taylorCore_none (P : List α) (z0 : α) :
     rw [← taylorCoeff_eq_coeff, taylorCoeff_eq, Nat.sub_eq_zero_of_le h]; simp
 
 end Taylor
+
+/-! ### divmod -/
+set_option linter.unusedSectionVars false
+section Strip
+variable {α : Type} [CommRing α] [DecidableEq α]
+
+theorem stripZeros_append_zeros (l : List α) : ∃ j, l = stripZeros l ++ List.replicate j 0 := by
+  unfold stripZeros
+  refine ⟨(l.reverse.takeWhile (fun c => decide (c = 0))).length, ?_⟩
+  have h := List.takeWhile_append_dropWhile (p := fun c => decide (c = (0 : α))) (l := l.reverse)
+  have h2 : l = (l.reverse.dropWhile (fun c => decide (c = 0))).reverse
+      ++ (l.reverse.takeWhile (fun c => decide (c = 0))).reverse := by
+    rw [← List.reverse_append, h, List.reverse_reverse]
+  have h3 : (l.reverse.takeWhile (fun c => decide (c = 0))).reverse
+      = List.replicate (l.reverse.takeWhile (fun c => decide (c = 0))).length 0 := by
+    rw [List.eq_replicate_iff]
+    refine ⟨by simp, ?_⟩
+    intro b hb
+    have hall := List.all_takeWhile (p := fun c => decide (c = (0 : α))) (l := l.reverse)
+    rw [List.all_eq_true] at hall
+    simpa using hall b (by simpa using hb)
+  rw [← h3]; exact h2
+
+theorem toPoly_stripZeros (l : List α) : toPoly (stripZeros l) = toPoly l := by
+  obtain ⟨j, hj⟩ := stripZeros_append_zeros l
+  conv_rhs => rw [hj]
+  rw [toPoly_append, toPoly_replicate_zero, mul_zero, add_zero]
+
+theorem length_stripZeros_le (l : List α) : (stripZeros l).length ≤ l.length := by
+  obtain ⟨j, hj⟩ := stripZeros_append_zeros l
+  conv_rhs => rw [hj]
+  rw [List.length_append]; omega
+
+/-- last coefficient non-zero (or empty list) -/
+def Stripped (l : List α) : Prop := ∀ h : l ≠ [], l.getLast h ≠ 0
+
+theorem stripped_stripZeros (l : List α) : Stripped (stripZeros l) := by
+  intro h
+  unfold stripZeros at h ⊢
+  rw [List.getLast_reverse]
+  have hne : l.reverse.dropWhile (fun c => decide (c = 0)) ≠ [] := by simpa using h
+  have := List.head_dropWhile_not (fun c => decide (c = (0 : α))) hne
+  simpa using this
+
+theorem getLast_eq_getD (l : List α) (h : l ≠ []) : l.getLast h = l.getD (l.length - 1) 0 := by
+  rw [List.getLast_eq_getElem, List.getD_eq_getElem?_getD,
+    List.getElem?_eq_getElem (by have := List.length_pos_of_ne_nil h; omega)]
+  rfl
+
+theorem toPoly_eq_zero_of_stripZeros_nil (l : List α) (h : stripZeros l = []) : toPoly l = 0 := by
+  rw [← toPoly_stripZeros, h]; rfl
+
+theorem toPoly_ne_zero_of_stripped (l : List α) (h : l ≠ []) (hs : Stripped l) : toPoly l ≠ 0 := by
+  intro h0
+  have := hs h
+  rw [getLast_eq_getD, ← coeff_toPoly, h0] at this
+  simp at this
+
+theorem stripZeros_eq_nil_iff (l : List α) : stripZeros l = [] ↔ toPoly l = 0 := by
+  constructor
+  · exact toPoly_eq_zero_of_stripZeros_nil l
+  · intro h
+    by_contra hne
+    exact toPoly_ne_zero_of_stripped _ hne (stripped_stripZeros l) (by rw [toPoly_stripZeros]; exact h)
+
+theorem degree_toPoly_lt (l : List α) : (toPoly l).degree < (l.length : WithBot ℕ) := by
+  rw [degree_lt_iff_coeff_zero]
+  intro m hm
+  rw [coeff_toPoly, List.getD_eq_getElem?_getD, List.getElem?_eq_none_iff.mpr hm]; rfl
+
+theorem le_degree_toPoly (l : List α) (h : l ≠ []) (hs : Stripped l) :
+    ((l.length - 1 : ℕ) : WithBot ℕ) ≤ (toPoly l).degree := by
+  apply le_degree_of_ne_zero
+  rw [coeff_toPoly, ← getLast_eq_getD l h]
+  exact hs h
+
+theorem toPoly_dropLast (l : List α) (h : l ≠ []) (h0 : l.getLast h = 0) : toPoly l.dropLast = toPoly l := by
+  conv_rhs => rw [← List.dropLast_append_getLast h, toPoly_append, h0]
+  simp
+
+theorem toPoly_set (t : α) : ∀ (Q : List α) (k : ℕ), k < Q.length →
+    toPoly (Q.set k t) = toPoly Q + C (t - Q.getD k 0) * X ^ k := by
+  intro Q
+  induction Q with
+  | nil => intro k h; simp at h
+  | cons q Q ih =>
+    intro k h
+    cases k with
+    | zero => simp [List.set_cons_zero]; ring
+    | succ k =>
+      rw [List.set_cons_succ, toPoly_cons, ih k (by simpa using h), toPoly_cons, List.getD_cons_succ, pow_succ]
+      ring
+
+theorem getD_set_ne (Q : List α) (k i : ℕ) (t : α) (h : i ≠ k) : (Q.set k t).getD i 0 = Q.getD i 0 := by
+  rw [List.getD_eq_getElem?_getD, List.getD_eq_getElem?_getD, List.getElem?_set_ne (Ne.symm h)]
+
+end Strip
+
+section Divmod
+variable {α : Type} [Field α] [DecidableEq α]
+
+/-- one iteration of the `divmod` loop: the new remainder -/
+theorem div_step (D R : List α) (hD : D ≠ []) (hR : R ≠ []) (ld : α) (hld : D.getLast hD = ld) (hld0 : ld ≠ 0)
+    (hlen : D.length ≤ R.length) :
+    let k := R.length - D.length
+    let t := R.getLastD 0 / ld
+    let R' := stripZeros (addCore R (mulCore [-t] (List.replicate k 0 ++ D))).dropLast
+    toPoly R' = toPoly R - C t * X ^ k * toPoly D ∧ R'.length < R.length ∧ Stripped R' := by
+  intro k t R'
+  have hDl := List.length_pos_of_ne_nil hD
+  set S := addCore R (mulCore [-t] (List.replicate k 0 ++ D)) with hS
+  have hXlen : (List.replicate k (0 : α) ++ D).length = R.length := by
+    simp only [List.length_append, List.length_replicate]; omega
+  have hMlen : (mulCore [-t] (List.replicate k 0 ++ D)).length = R.length := by
+    rw [length_mulCore _ _ (by simp), hXlen]; simp
+  have hSlen : S.length = R.length := by rw [hS, length_addCore, hMlen]; simp
+  have hSne : S ≠ [] := by
+    intro h0; rw [h0] at hSlen; simp at hSlen
+    exact hR (List.eq_nil_of_length_eq_zero hSlen.symm)
+  have hSpoly : toPoly S = toPoly R - C t * X ^ k * toPoly D := by
+    rw [hS, toPoly_addCore, toPoly_mulCore, toPoly_append, toPoly_replicate_zero, List.length_replicate]
+    simp only [toPoly_cons, toPoly_nil, mul_zero, add_zero, zero_add, C_neg]
+    ring
+  have hRlast : R.getLastD 0 = R.getLast hR := by
+    cases R with
+    | nil => exact absurd rfl hR
+    | cons a l => rfl
+  have hSlast : S.getLast hSne = 0 := by
+    rw [getLast_eq_getD, ← coeff_toPoly, hSpoly, hSlen, coeff_sub, mul_assoc, coeff_C_mul, coeff_X_pow_mul',
+      if_pos (by omega), coeff_toPoly, coeff_toPoly, ← getLast_eq_getD R hR]
+    have hidx : R.length - 1 - k = D.length - 1 := by omega
+    rw [hidx, ← getLast_eq_getD D hD, hld]
+    show R.getLast hR - R.getLastD 0 / ld * ld = 0
+    rw [hRlast, div_mul_cancel₀ _ hld0, sub_self]
+  refine ⟨?_, ?_, stripped_stripZeros _⟩
+  · show toPoly (stripZeros S.dropLast) = _
+    rw [toPoly_stripZeros, toPoly_dropLast S hSne hSlast, hSpoly]
+  · show (stripZeros S.dropLast).length < R.length
+    have := length_stripZeros_le S.dropLast
+    rw [List.length_dropLast, hSlen] at this
+    have := List.length_pos_of_ne_nil hR
+    omega
+
+theorem divLoop_spec (D : List α) (hD : D ≠ []) (ld : α) (hld : D.getLast hD = ld) (hld0 : ld ≠ 0) :
+    ∀ (fuel : ℕ) (Q R : List α), R.length < fuel → R.length < Q.length + D.length →
+      (∀ i, i + D.length ≤ R.length → Q.getD i 0 = 0) →
+      toPoly (divLoop ld D fuel Q R).1 * toPoly D + toPoly (divLoop ld D fuel Q R).2
+        = toPoly Q * toPoly D + toPoly R ∧
+      (divLoop ld D fuel Q R).2.length < D.length := by
+  intro fuel
+  induction fuel with
+  | zero => intro Q R h; omega
+  | succ fuel ih =>
+    intro Q R hf hQ hz
+    rw [divLoop]
+    split
+    · rename_i hge
+      have hDl := List.length_pos_of_ne_nil hD
+      have hR : R ≠ [] := by
+        intro h0; rw [h0, List.length_nil] at hge; omega
+      obtain ⟨h1, h2, _⟩ := div_step D R hD hR ld hld hld0 hge
+      set k := R.length - D.length with hk
+      set t := R.getLastD 0 / ld with ht
+      set R' := stripZeros (addCore R (mulCore [-t] (List.replicate k 0 ++ D))).dropLast with hR'
+      have hkQ : k < Q.length := by omega
+      have ih' := ih (Q.set k t) R' (by omega) (by rw [List.length_set]; omega) (by
+        intro i hi
+        rw [getD_set_ne _ _ _ _ (by omega)]
+        exact hz i (by omega))
+      refine ⟨?_, ih'.2⟩
+      rw [ih'.1, toPoly_set t Q k hkQ, hz k (by omega), h1, sub_zero]
+      ring
+    · rename_i hlt
+      exact ⟨rfl, by show R.length < D.length; omega⟩
+
+theorem divmodCore_spec (P D : List α) (hD : toPoly D ≠ 0) :
+    ∃ Q R, divmodCore P D = some (Q, R) ∧ toPoly P = toPoly Q * toPoly D + toPoly R ∧
+      (toPoly R).degree < (toPoly D).degree := by
+  unfold divmodCore
+  set P' := stripZeros P with hP'
+  set D' := stripZeros D with hD'
+  have hD'ne : D' ≠ [] := by
+    intro h0; exact hD ((stripZeros_eq_nil_iff D).mp h0)
+  have hD's : Stripped D' := stripped_stripZeros D
+  have hPp : toPoly P' = toPoly P := toPoly_stripZeros P
+  have hDp : toPoly D' = toPoly D := toPoly_stripZeros D
+  have hdegD := le_degree_toPoly D' hD'ne hD's
+  have hD'l := List.length_pos_of_ne_nil hD'ne
+  simp only []
+  split
+  · rename_i hlt
+    refine ⟨[], P', rfl, by simp [hPp], ?_⟩
+    rw [← hDp]
+    refine lt_of_lt_of_le (degree_toPoly_lt P') (le_trans ?_ hdegD)
+    exact_mod_cast (by omega : P'.length ≤ D'.length - 1)
+  · rename_i hge
+    have hlast : D'.getLast? = some (D'.getLast hD'ne) := List.getLast?_eq_some_getLast hD'ne
+    rw [hlast]
+    simp only []
+    have spec := divLoop_spec D' hD'ne (D'.getLast hD'ne) rfl (hD's hD'ne) (P'.length + 1)
+      (List.replicate (P'.length - D'.length + 1) 0) P' (by omega)
+      (by rw [List.length_replicate]; omega)
+      (by intro i _; rw [List.getD_eq_getElem?_getD]; by_cases hi : i < P'.length - D'.length + 1
+          · rw [List.getElem?_replicate_of_lt hi]; rfl
+          · rw [List.getElem?_eq_none_iff.mpr (by rw [List.length_replicate]; omega)]; rfl)
+    refine ⟨_, _, rfl, ?_, ?_⟩
+    · rw [toPoly_stripZeros, ← hPp, ← hDp, spec.1, toPoly_replicate_zero]; ring
+    · rw [← hDp]
+      refine lt_of_lt_of_le (degree_toPoly_lt _) (le_trans ?_ hdegD)
+      exact_mod_cast (by have := spec.2; omega :
+        (divLoop (D'.getLast hD'ne) D' (P'.length + 1) (List.replicate (P'.length - D'.length + 1) 0) P').2.length
+          ≤ D'.length - 1)
+
+theorem divmodCore_none_iff (P D : List α) : divmodCore P D = none ↔ toPoly D = 0 := by
+  constructor
+  · intro h
+    by_contra hne
+    obtain ⟨Q, R, hqr, _⟩ := divmodCore_spec P D hne
+    rw [h] at hqr; cases hqr
+  · intro h
+    have hs : stripZeros D = [] := (stripZeros_eq_nil_iff D).mpr h
+    unfold divmodCore
+    simp [hs]
+
+/-- the result is Mathlib's Euclidean quotient and remainder -/
+theorem divmod_unique (p d q r : α[X]) (hd : d ≠ 0) (h : p = q * d + r) (hdeg : r.degree < d.degree) :
+    q = p / d ∧ r = p % d := by
+  have hr : p % d = r := by
+    rw [h, add_mod, EuclideanDomain.mod_eq_zero.mpr (Dvd.intro_left q rfl), zero_add, (mod_eq_self_iff hd).mpr hdeg]
+  refine ⟨?_, hr.symm⟩
+  have h2 := EuclideanDomain.div_add_mod p d
+  rw [hr] at h2
+  have h3 : d * (p / d) = d * q := by
+    have : d * (p / d) + r = d * q + r := by rw [h2, h]; ring
+    exact add_right_cancel this
+  exact (mul_left_cancel₀ hd h3).symm
+
+end Divmod
+
+/-! ### statements with the `reverse` flag; Σ forms -/
+section Final
+variable {α : Type} [CommRing α]
+
+/-- the coefficient list lowest degree first: with `reverse=True` lists are highest degree first -/
+def orient (rev : Bool) (l : List α) : List α := if rev then l.reverse else l
+
+@[simp] theorem orient_false (l : List α) : orient false l = l := rfl
+@[simp] theorem orient_true (l : List α) : orient true l = l.reverse := rfl
+theorem orient_ne_nil {rev : Bool} {l : List α} (h : l ≠ []) : orient rev l ≠ [] := by
+  cases rev <;> simpa using h
+
+theorem fromRatioAux_getD (rs : List α) : ∀ (p : α) (i : ℕ), i < rs.length →
+    (fromRatioAux p rs).getD i 0 = p * ∏ j ∈ Finset.range (i + 1), rs.getD j 0 := by
+  induction rs with
+  | nil => intro p i h; simp at h
+  | cons r rs ih =>
+    intro p i h
+    cases i with
+    | zero => simp [fromRatioAux]
+    | succ i =>
+      simp only [fromRatioAux, List.getD_cons_succ]
+      rw [ih (p * r) i (by simpa using h), Finset.prod_range_succ' _ (i + 1)]
+      simp only [List.getD_cons_succ, List.getD_cons_zero]
+      ring
+
+theorem fromRatio_getD (rs : List α) (i : ℕ) (h : i < rs.length) :
+    (fromRatio rs).getD i 0 = ∏ j ∈ Finset.range (i + 1), rs.getD j 0 := by
+  rw [fromRatio, fromRatioAux_getD rs 1 i h, one_mul]
+
+theorem fromRatio_length (rs : List α) : (fromRatio rs).length = rs.length := fromRatioAux_length 1 rs
+
+theorem multiply_spec (P Q : List α) (rev : Bool) :
+    toPoly (orient rev (multiply P Q rev)) = toPoly (orient rev P) * toPoly (orient rev Q) := by
+  cases rev <;> simp [multiply, toPoly_mulCore]
+
+theorem add_spec (P Q : List α) (rev : Bool) :
+    toPoly (orient rev (add P Q rev)) = toPoly (orient rev P) + toPoly (orient rev Q) := by
+  cases rev <;> simp [add, toPoly_addCore]
+
+theorem derivative_spec (P : List α) (n : ℕ) (rev : Bool) :
+    toPoly (orient rev (derivative P n rev)) = (⇑(Polynomial.derivative (R := α)))^[n] (toPoly (orient rev P)) := by
+  cases rev <;> simp [derivative, toPoly_derivCore]
+
+theorem taylorat_spec (P : List α) (z0 : α) (rev : Bool) (size : Option ℕ) (hs : rev = false → size = none) :
+    toPoly (orient rev (taylorat P z0 rev size)) = (taylor z0) (toPoly (orient rev P)) := by
+  cases rev with
+  | false => rw [hs rfl]; simp [taylorat, toPoly_taylorCore_none]
+  | true => simp [taylorat, toPoly_taylorCore_none]
+
+theorem taylorat_size (P : List α) (z0 : α) (k : ℕ) :
+    (taylorat P z0 false (some k)).length = k ∧
+    ∀ m, m < k → (taylorat P z0 false (some k)).getD m 0 = ((taylor z0) (toPoly P)).coeff m := by
+  refine ⟨by simp [taylorat, taylorCore], ?_⟩
+  intro m hm
+  simp only [taylorat, Bool.false_eq_true, if_false]
+  rw [getD_taylorCore]; simp [hm]
+
+theorem taylorat_eval (P : List α) (z0 z : α) :
+    evalPoly (taylorat P z0) (z - z0) = evalPoly P z := by
+  rw [← eval_toPoly, ← eval_toPoly]
+  have := taylorat_spec P z0 false none (fun _ => rfl)
+  simp only [orient_false] at this
+  rw [this, taylor_eval, sub_add_cancel]
+
+end Final
+
+section FinalField
+variable {α : Type} [Field α]
+
+theorem Fpa.laurent_sum (z : α) (C : List α) (m : ℤ) (rev : Bool) (scheme : Option Scheme)
+    (hne : C ≠ []) (hz : m < 0 → z ≠ 0) (h : SchemeOKAll scheme (C.length - 1)) :
+    Fpa.laurent z C m rev scheme
+      = ∑ j ∈ Finset.range C.length, (orient rev C).getD j 0 * z ^ ((j : ℤ) + m) := by
+  rw [Fpa.laurent_eq z C m rev scheme hne hz h, evalPoly_eq_sum, Finset.sum_mul]
+  have hl : (if rev = true then C.reverse else C).length = C.length := by cases rev <;> simp
+  rw [hl]
+  apply Finset.sum_congr rfl
+  intro j _
+  have : (if rev = true then C.reverse else C) = orient rev C := rfl
+  rw [this, mul_assoc]
+  congr 1
+  by_cases hz0 : z = 0
+  · have hm : 0 ≤ m := by
+      by_contra hneg; exact hz (by omega) hz0
+    obtain ⟨k, rfl⟩ := Int.eq_ofNat_of_zero_le hm
+    rw [← Nat.cast_add, zpow_natCast, zpow_natCast, pow_add]
+  · rw [zpow_add₀ hz0, zpow_natCast]
+
+variable [DecidableEq α]
+
+theorem divmod_spec (P D : List α) (rev : Bool) (hD : toPoly (orient rev D) ≠ 0) :
+    ∃ Q R, divmod P D rev = some (Q, R) ∧
+      toPoly (orient rev P) = toPoly (orient rev Q) * toPoly (orient rev D) + toPoly (orient rev R) ∧
+      (toPoly (orient rev R)).degree < (toPoly (orient rev D)).degree ∧
+      toPoly (orient rev Q) = toPoly (orient rev P) / toPoly (orient rev D) ∧
+      toPoly (orient rev R) = toPoly (orient rev P) % toPoly (orient rev D) := by
+  cases rev with
+  | false =>
+    simp only [orient_false] at hD ⊢
+    obtain ⟨Q, R, h1, h2, h3⟩ := divmodCore_spec P D hD
+    exact ⟨Q, R, by simp [divmod, h1], h2, h3, divmod_unique _ _ _ _ hD h2 h3⟩
+  | true =>
+    simp only [orient_true] at hD ⊢
+    obtain ⟨Q, R, h1, h2, h3⟩ := divmodCore_spec P.reverse D.reverse hD
+    refine ⟨Q.reverse, R.reverse, by simp [divmod, h1], ?_⟩
+    simp only [List.reverse_reverse]
+    exact ⟨h2, h3, divmod_unique _ _ _ _ hD h2 h3⟩
+
+theorem divmod_none_iff' (P D : List α) (rev : Bool) : divmod P D rev = none ↔ toPoly (orient rev D) = 0 := by
+  cases rev with
+  | false => simp [divmod, divmodCore_none_iff]
+  | true => simp [divmod, divmodCore_none_iff]
+
+end FinalField
 
 end FAVerif.Poly
